@@ -210,8 +210,17 @@ def step (line : String) : String :=
           | _ => none
         some (unhexText n, os)
       | _ => none
-    match expandFile fs (expandFuel fs) (unhexText root) [] [] with
-    | .ok (ms, _) => s!"ok {" ".intercalate (ms.map toString)}"
+    -- several root files (comma separated) share the `#once` set, like `parse_many_and_resolve_includes`
+    let roots := (root.splitOn ",").map unhexText
+    let rec goRoots (rs : List (List Char)) (once : List (List Char)) (acc : List Nat) : Except IncErr (List Nat) :=
+      match rs with
+      | [] => .ok acc
+      | r :: rest =>
+        match expandFile fs (expandFuel fs) r [] once with
+        | .error e => .error e
+        | .ok (ms, once') => goRoots rest once' (acc ++ ms)
+    match goRoots roots [] [] with
+    | .ok ms => s!"ok {" ".intercalate (ms.map toString)}"
     | .error .notFound => "err notFound"
     | .error (.nav .invalidFilename) => "err invalid filename"
     | .error (.nav .outOfProject) => "err cannot navigate out of project directory"
